@@ -12,7 +12,7 @@ ROOT = os.path.normpath(os.path.join(os.path.dirname(os.path.abspath(__file__)),
 BUILD = os.environ.get('VERIF_OCAML_BUILD') or os.path.join(ROOT, 'ocaml', 'build')
 
 
-def build(pid):
+def build(pid, corr_name=None):
     src = os.path.join(BUILD, 'm%s.ml' % pid)
     if not os.path.exists(src):
         return None, 'no extracted source ' + src
@@ -20,7 +20,7 @@ def build(pid):
         model = f.read()
     with open(os.path.join(ROOT, 'ocaml', 'driver_tail.ml')) as f:
         tail = f.read()
-    text = model + '\nlet corr = corr_%s\n' % pid + tail
+    text = model + '\nlet corr = %s\n' % (corr_name or 'corr_%s' % pid).lower().replace('corr_c', 'corr_C') + tail
     h = hashlib.sha256(text.encode()).hexdigest()
     exe = os.path.join(BUILD, 'drv_%s' % pid)
     stamp = exe + '.sha'
